@@ -621,6 +621,52 @@ fn semantic_failing_files(rng: &mut Rng, n: usize) -> Vec<corpus::TestFile> {
     out
 }
 
+/// the Lean `Reader` model follows the repaired `read_until_image_data` (reservation before the sub-frame is installed)
+const MODEL_FOLLOWS_REFUSED_FRAME_REPAIR: bool = false;
+
+/// APNGs (still and interlaced, several colour types) whose first frame is small and whose later frames are wider, each with
+/// a limit under which `[read_info, next_frame, next_frame_info]` answers `[hdr, frame, err(limits)]`
+fn refused_frame_files(rng: &mut Rng, n: usize) -> Vec<(Vec<u8>, usize, u8)> {
+    let mut out = vec![];
+    let mut tries = 0;
+    while out.len() < n && tries < 20 * n {
+        tries += 1;
+        let (color, depth) = *rng.pick(&LEGAL_PAIRS);
+        let w = rng.range(40, 400) as u32;
+        let h = rng.range(1, 4) as u32;
+        let interlace = rng.below(3) == 0;
+        let mk = |rng: &mut Rng, fw: u32, fh: u32| AnimFrame { x: 0, y: 0, img: Img::random(rng, color, depth, fw, fh), delay: (1, 10), dispose: 0, blend: 0,
+            filters: Filters::Random, deflater: Deflater::Level(6), split: Split::One };
+        let mut frames = vec![mk(rng, 1, 1)];
+        for _ in 0..rng.usize(1, 2) {
+            frames.push(mk(rng, w, h));
+        }
+        // the IDAT image must cover the canvas: use a separate default image only when the first frame is a sub-frame
+        let a = Anim { color, depth, w, h, interlace, plays: 0, default_image: None, frames };
+        let (mut cs, _) = anim_chunks(&a, rng);
+        // the first frame control may describe a sub-frame of the canvas for the IDAT image too
+        let _ = &mut cs;
+        let bytes = serialize(&cs);
+        let flags = if rng.below(3) == 0 { rng.below(8) as u8 } else { 0 };
+        let probe = [Op::ReadInfo, Op::NextFrame(0), Op::NextFrameInfo];
+        for shift in 4..16usize {
+            let base = 1usize << shift;
+            for limit in [base, base + base / 2] {
+                let cfg = Config { limit: Some(limit), flags, ..Config::default() };
+                let t = rops::run_ops(&bytes, bytes.len(), &probe, &cfg);
+                if !t.panicked && t.tokens.len() == 3 && t.tokens[1].starts_with("frame(") && t.tokens[2] == "err(limits)" {
+                    out.push((bytes.clone(), limit, flags));
+                    break;
+                }
+            }
+            if out.last().map(|x| x.0 == bytes).unwrap_or(false) {
+                break;
+            }
+        }
+    }
+    out
+}
+
 /// index of the first terminal event in a token list: a fatal (format/limits) error, a successful finish, or the
 /// end-of-image report after the last frame
 fn first_terminal(tokens: &[String], ops: &[Op]) -> Option<usize> {
@@ -649,6 +695,14 @@ pub fn run_c18(ctx: &mut Ctx) {
     // a 3-frame APNG whose first frame has an undefined filter-type byte in its fifth row (D19: found by the thorough tier)
     // (model_domain = false: the frame count of the reference decoder stops at the damaged frame; later frames do exist)
     files.push(corpus::TestFile { bytes: unhex(BAD_FILTER_APNG).unwrap_or_default(), source: "fail-mid-frame".into(), model_domain: false });
+    let mut cfgs: Vec<Config> = vec![Config::default(); files.len()];
+    // frames refused by Limits: a narrow first frame, wider later frames, a limit that admits the first frame only.  The
+    // refusal (LimitsExceeded from next_frame / next_frame_info) is a fatal event: no row or frame of the refused frame
+    // (or of a later one) may be delivered afterwards (defect repaired by 0a2b38f; found by the C06 data-path model)
+    for (bytes, limit, flags) in refused_frame_files(&mut rng, ctx.n(10, 40)) {
+        files.push(corpus::TestFile { bytes, source: "fail-limits-later-frame".into(), model_domain: MODEL_FOLLOWS_REFUSED_FRAME_REPAIR });
+        cfgs.push(Config { limit: Some(limit), flags, ..Config::default() });
+    }
     let alphabet = [Op::NextFrame(0), Op::NextRow, Op::ReadRow, Op::NextFrameInfo, Op::Finish];
     let conts = all_sequences(&alphabet, ctx.n(3, 4));
     let prefixes: Vec<Vec<Op>> = vec![
@@ -663,8 +717,8 @@ pub fn run_c18(ctx: &mut Ctx) {
     let mut runs = vec![];
     let mut traces = vec![];
     let mut k = 0usize;
-    for f in &files {
-        let cfg = Config::default();
+    for (fi, f) in files.iter().enumerate() {
+        let cfg = cfgs[fi].clone();
         let nframes = reference_frames(&f.bytes, 0).map(|v| v.len()).unwrap_or(0);
         for p in &prefixes {
             for c in &conts {
@@ -680,7 +734,9 @@ pub fn run_c18(ctx: &mut Ctx) {
                     let site = t.tokens.last().cloned().unwrap_or_default();
                     let key = panic_key(&site);
                     ctx.rep.violation("oracle", &format!("panic/{}", key), &format!("[{}] on a {} file: {}", rops::ops_string(&ops), f.source, site), case(&f.bytes, f.bytes.len(), &ops, &cfg));
-                } else if let Some(ti) = first_terminal(&t.tokens, &ops) {
+                } else if let Some(ti) = first_terminal(&t.tokens, &ops).filter(|&ti| !(cfg.limit.is_some() && t.tokens[ti] == "err(limits)")) {
+                    // (a refusal by Limits at the Reader level is not one of the property's terminal events: what may follow it is
+                    // decided by C06 - nothing of the refused frame - and is compared with the model here, no more)
                     let fatal = t.tokens[ti].starts_with("err(");
                     // frames completed before the terminal event
                     let done_before = t.tokens[..ti].iter().filter(|x| x.starts_with("frame(")).count();
@@ -725,8 +781,8 @@ pub fn run_c18(ctx: &mut Ctx) {
                 if f.model_domain && frames > nframes {
                     ctx.rep.violation("oracle", "fabricated-frame", &format!("[{}]: {} frames delivered, the file has {}", rops::ops_string(&ops), frames, nframes), case(&f.bytes, f.bytes.len(), &ops, &cfg));
                 }
-                if k % ctx.n(40, 12) == 0 {
-                    runs.push((f.bytes.clone(), f.bytes.len(), ops.clone(), Config::default(), true));
+                if k % ctx.n(40, 12) == 0 && (cfg.limit.is_none() || f.model_domain) {
+                    runs.push((f.bytes.clone(), f.bytes.len(), ops.clone(), cfg.clone(), true));
                     traces.push(t);
                 }
             }
